@@ -55,11 +55,15 @@ D2C == { Wrap(pos, c) : pos \in 1..9, c \in D1C }
 D3C == { Wrap(pos, c) : pos \in 1..9, c \in D2C }
 
 HoleT(ty) == [t |-> "Hole", ty |-> ty]
-A == HoleT("any")  L == HoleT("leaf")  C == HoleT("comp")  R == HoleT("rand")
+A == HoleT("any")  L == HoleT("leaf")  C == HoleT("comp")  Pr == HoleT("pair")
 
 PoolFor(ty) ==
     CASE ty = "any"  -> Leaves \cup D1C \cup D1
       [] ty = "leaf" -> Leaves
+      \* both holes of a Pairs root: quick keeps the product of the two pools small
+      [] ty = "pair" -> IF Tier = "quick"
+                        THEN Leaves \cup D1C \cup { N("Sum", << x, y >>), B("Power", x, Two) }
+                        ELSE Leaves \cup D1C \cup D1
       [] ty = "comp" -> IF Tier = "quick" THEN D1C \cup D2C ELSE D1C \cup D2C \cup D3C
 
 RECURSIVE FirstHoleTy(_)
@@ -94,40 +98,84 @@ Over(h) ==
 
 \* two independent holes: repeated subexpressions, shared / unshared CSEs, operand counts
 Pairs ==
-       { N(k, << A, A >>) : k \in {"Sum", "Product", "Tup", "List", "Min", "LogAnd"} }
-  \cup { B(k, A, A) : k \in {"Power", "Quotient", "Sub"} }
-  \cup { N("Sum", << CSE0(A), CSE0(A) >>), N("Product", << CSE0(A), CSE(A, "pre", "pymbolic_expr") >>),
-         N("Sum", << CSE0(N("Product", << A, CSE0(A) >>)), y >>),
-         Cmp(A, "==", A), IfE(A, A, x), Call(A, << A >>), CallKw(ff, << A >>, << KwArg("k1", A) >>),
-         N("Sum", << A, x, A >>), N("Product", << A, A, y, x >>) }
+       { N(k, << Pr, Pr >>) : k \in (IF Tier = "quick" THEN {"Sum", "Product", "Tup"}
+                                   ELSE {"Sum", "Product", "Tup", "List", "Min", "LogAnd"}) }
+  \cup { B(k, Pr, Pr) : k \in (IF Tier = "quick" THEN {"Power", "Sub"} ELSE {"Power", "Quotient", "Sub"}) }
+  \cup { N("Sum", << CSE0(Pr), CSE0(Pr) >>), N("Product", << CSE0(Pr), CSE(Pr, "pre", "pymbolic_expr") >>),
+         N("Sum", << CSE0(N("Product", << Pr, CSE0(Pr) >>)), y >>),
+         Cmp(Pr, "==", Pr), IfE(Pr, Pr, x), Call(Pr, << Pr >>), CallKw(ff, << Pr >>, << KwArg("k1", Pr) >>),
+         N("Sum", << Pr, x, Pr >>), N("Product", << Pr, Pr, y, x >>) }
 Singles ==
        { N(k, << >>) : k \in NaryRootKinds \cup {"Slice"} }
   \cup { N(k, << A >>) : k \in NaryRootKinds }
   \cup { Call(ff, << >>), CallKw(gg, << >>, << >>), N("Tup", << N("List", << A >>), y >>),
-         N("Sum", << L, L, L >>), N("Product", << L, L, L, L >>), N("Sum", << x, N("Sum", << L, L >>), L >>) }
+         N("Sum", << L, L, L >>), N("Product", << L, L, x, L >>), N("Sum", << x, N("Sum", << L, L >>), L >>) }
   \cup Leaves \cup { ff, tt, oo }
+\* the leaf classes that are neither variables nor constants
+Exotics == { XLeaf(k) : k \in ExoticKinds }
+ExoticRoots == Exotics \cup { N("Sum", << x, l >>) : l \in Exotics }
+               \cup { Call(l, << x >>) : l \in Exotics } \cup { B("Sub", tt, l) : l \in Exotics }
+               \cup { CSE0(B("Power", l, y)) : l \in Exotics } \cup { Look(l, "p") : l \in Exotics }
 
-Roots == Over(C) \cup Pairs \cup Singles
+Roots == Over(C) \cup Pairs \cup Singles \cup ExoticRoots
 
-\* ---- Mode "rand": a random tree grown under -simulate ------------------------
-\* (kept free of lists, see the driver's note on unhashable nodes)
-Skeletons == { s \in Over(R) : s.t # "List" } \cup
-             { N("Sum", << R, R >>), N("Product", << R, R, R >>), B("Power", R, R), B("Quotient", R, R),
-               N("Sum", << CSE0(R), CSE0(R) >>), Call(R, << R, R >>), B("Sub", R, N("Tup", << R, R >>)),
-               CallKw(R, << R >>, << KwArg("k2", R), KwArg("k1", R) >>), N("Tup", << R, R >>),
-               IfE(R, R, R), CSE0(N("Sum", << R, R >>)) }
-RandPool == IF fuel > 0 THEN Skeletons \cup Leaves \cup D1C ELSE Leaves \cup D1C \cup D1
+\* ---- Mode "rand": random deeper trees under -simulate ---------------------------
+\* Grown bottom-up (every state is a complete tree, every state of a behaviour is a
+\* case): a random node kind is put on top of the current tree and one or two random
+\* small trees - or the current tree once more, which gives repeated subexpressions
+\* and shared CSEs.  (Expr.tla's NHoles / FillFirst are exponential in the depth,
+\* so holes are not used here.)  Kept free of lists, see the driver's note.
+SmallPool == Leaves \cup D1C \cup (D1 \ { N("List", << x >>) })
+NSk == 26
+Arity(i) == CASE i \in {6, 11, 12, 13, 18} -> 1
+              [] i \in {2, 5, 7, 10, 15} -> 3
+              [] OTHER -> 2
+Sk(i, a, b, c) ==
+    CASE i = 1  -> N("Sum", << a, b >>)
+      [] i = 2  -> N("Product", << a, b, c >>)
+      [] i = 3  -> B("Power", a, b)
+      [] i = 4  -> B("Quotient", a, b)
+      [] i = 5  -> Call(a, << b, c >>)
+      [] i = 6  -> Call(ff, << a >>)
+      [] i = 7  -> CallKw(a, << b >>, << KwArg("k2", c) >>)
+      [] i = 8  -> CallKw(gg, << >>, << KwArg("k1", a), KwArg("k2", b) >>)
+      [] i = 9  -> B("Sub", a, b)
+      [] i = 10 -> B("Sub", tt, N("Tup", << a, N("Slice", << b, NoneE, c >>) >>))
+      [] i = 11 -> Look(a, "p")
+      [] i = 12 -> CSE0(a)
+      [] i = 13 -> CSE(a, "pre", "pymbolic_expr")
+      [] i = 14 -> N("Sum", << CSE0(a), CSE0(b) >>)
+      [] i = 15 -> IfE(a, b, c)
+      [] i = 16 -> Cmp(a, "<", b)
+      [] i = 17 -> N("LogAnd", << a, b >>)
+      [] i = 18 -> U("BitNot", a)
+      [] i = 19 -> N("Min", << a, b >>)
+      [] i = 20 -> B("FloorDiv", a, b)
+      [] i = 21 -> B("LShift", a, b)
+      [] i = 22 -> N("Tup", << a, b >>)
+      [] i = 23 -> N("BitOr", << a, b >>)
+      [] i = 24 -> CSE0(N("Product", << a, CSE0(b) >>))
+      [] i = 25 -> Call(gg, << a, b >>)
+      [] i = 26 -> B("Sub", a, N("Slice", << NoneE, b >>))
+RandNext ==      \* (bound variables, not LET: every mention of a LET name would draw again)
+    \E i \in { RandomElement(1..NSk) } :
+    \E pos \in { RandomElement(1..Arity(i)) } :
+    \E o1 \in { RandomElement(SmallPool \cup { tree }) } :
+    \E o2 \in { RandomElement(SmallPool \cup { tree }) } :
+        tree' = CASE pos = 1 -> Sk(i, tree, o1, o2)
+                  [] pos = 2 -> Sk(i, o1, tree, o2)
+                  [] pos = 3 -> Sk(i, o1, o2, tree)
 
 Init == IF Mode = "meta" THEN tree = x /\ fuel = 0       \* prints environments and flags only
         ELSE IF Mode = "exh" THEN tree \in Roots /\ fuel = 0
-        ELSE tree = R /\ fuel \in {3, 4, 5, 6}
-Next == /\ NHoles(tree) > 0
-        /\ IF Mode = "exh"
-           THEN (\E s \in PoolFor(FirstHoleTy(tree)) : tree' = FillFirst(tree, s)) /\ fuel' = fuel
-           ELSE (\E s \in RandPool : tree' = FillFirst(tree, s))
-                /\ fuel' = (IF fuel > 0 THEN fuel - 1 ELSE 0)
+        ELSE tree \in { x, One, Call(ff, << x >>), Look(oo, "p"), B("Sub", tt, x), CSE0(N("Sum", << x, y >>)) }
+             /\ fuel = 0
+Next == IF Mode = "rand"
+        THEN Cardinality(Paths(tree)) < 60 /\ RandNext /\ fuel' = fuel
+        ELSE /\ NHoles(tree) > 0
+             /\ (\E s \in PoolFor(FirstHoleTy(tree)) : tree' = FillFirst(tree, s)) /\ fuel' = fuel
 
-Complete == NHoles(tree) = 0
+Complete == Mode = "rand" \/ NHoles(tree) = 0
 
 \* ---- checked on the model ----------------------------------------------------
 ImplRefinesMeaning ==
@@ -139,6 +187,9 @@ EvalLemma == Complete => \A i \in 1..Len(Envs) : RestrictedEvalLemma(tree, Envs[
 
 Emit == Complete => PrintT(ToJson([e |-> tree]))
 
+ASSUME FlagInitAgree
+\* negative controls (the same seeded bugs as the C09_Neg_*.cfg runs of the thorough tier)
+ASSUME NegControls /\ PrintT(ToJson([negcontrols |-> Cardinality(NegBugs)]))
 ASSUME PrintT(ToJson([envs |-> Envs]))
 ASSUME PrintT(ToJson([flags |-> RawSeq]))
 =============================================================================
